@@ -577,11 +577,11 @@ Proof.
   destruct (structish_inner (sf_ty o)) as [inner|] eqn:SI.
   2:{ inversion H; subst. simpl. auto. }
   destruct (negb (should_recurse m)); [inversion H; subst; simpl; auto|].
-  destruct (either_implements_tu (sf_ty o)); [inversion H; subst; simpl; auto|].
+  destruct (either_implements_tu inner) eqn:Ei; [inversion H; subst; simpl; auto|].
   destruct (sf_ty o) as [| |e|e nm| | | | | |] eqn:T; simpl in Wt, SI; try discriminate.
   - (* pointer to struct *)
     destruct e as [| | | | | |ifs inm| | |]; simpl in SI; try discriminate.
-    + inversion SI; subst inner. discriminate.
+    + inversion SI; subst inner. simpl in Ei. destruct ptr_recv; discriminate.
     + inversion SI; subst inner.
       destruct (sub m (TStruct ifs inm)) as [r'| |] eqn:Sr; simpl in H; try discriminate.
       inversion H; subst. simpl.
@@ -591,7 +591,7 @@ Proof.
       * unfold nilv, rec_unmangle_one. simpl. unfold zero_tv. rewrite T. reflexivity.
   - (* slice of structs *)
     destruct (kind_struct e) eqn:Ke; [| discriminate]. inversion SI; subst inner.
-    destruct e as [| | | | | |ifs inm| | |]; try discriminate.
+    destruct e as [| id pr | | | | |ifs inm| | |]; try discriminate; [simpl in Ei; destruct pr; discriminate|].
     destruct (sub m (TStruct ifs inm)) as [r'| |] eqn:Sr; simpl in H; try discriminate.
     inversion H; subst. simpl. repeat split.
     + unfold wf_sf. simpl. rewrite Wn. simpl. exact Wa.
